@@ -281,7 +281,7 @@ def wRowSubclass : Row := r 0 0 2 29 1 10 254 0 1 13 0 1 4
 /-- `E.A.count` -/
 def wRowIgnoredEnd : Row := r 2 6 25 0 9 0 3 2 0 0 1 0 0
 /-- `int.imag` -/
-def wRowClassDescr : Row := r 2 1 30 0 12 0 14 0 17 451 0 1 1
+def wRowClassDescr : Row := r 2 1 30 0 12 0 2606 0 17 451 0 1 1
 
 theorem table_witness_classAsIndex :
     D19_classAsIndex wRowClassAsIndex = true ∧ modelDiag wRowClassAsIndex ≠ specDiag wRowClassAsIndex ∧
@@ -296,6 +296,26 @@ theorem table_witness_ignoredEndOfReference :
     agree wRowIgnoredEnd = false := by decide
 theorem table_witness_classLevelDescriptor :
     D19_classLevelDescriptor wRowClassDescr = true ∧ agree wRowClassDescr = false := by decide
+
+/-- `int.__annotations__` (declared for `object` in the stubs, raises on the class): also `classLevelDescriptor`. -/
+def wRowStubOnly : Row := r 2 57 28 0 12 0 2090 2 0 0 1 0 0
+theorem table_witness_classLevelDescriptor_stubOnly :
+    D19_classLevelDescriptor wRowStubOnly = true ∧ modelDiag wRowStubOnly ≠ specDiag wRowStubOnly ∧
+    agree wRowStubOnly = false := by decide
+
+/-- Regression for the seeded change C19-4 (`__dict__` answered before the object is consulted):
+on `(0).__dict__` (CPython: AttributeError) the model reports, a reporting implementation agrees and
+conforms, a silent one (`p = 1`) does neither. -/
+theorem attr_regression_dunder_dict :
+    modelDiag (r 2 80 1 0 1 0 0 2 0 0 2 0 0) = some true ∧ agree (r 2 80 1 0 1 0 0 2 0 0 2 0 0) = true ∧
+    conforms (r 2 80 1 0 1 0 0 2 0 0 2 0 0) = true ∧
+    D19 (r 2 80 1 0 1 0 0 2 0 0 1 0 0) = false ∧ agree (r 2 80 1 0 1 0 0 2 0 0 1 0 0) = false ∧
+    conforms (r 2 80 1 0 1 0 0 2 0 0 1 0 0) = false := by decide
+
+/-- non-vacuity of the hypotheses of `attr_model_meets_spec_partial`: `(0).__dict__` and `(1).real`. -/
+example : attrWF (r 2 80 1 0 1 0 0 2 0 0 2 0 0) = true ∧ D19 (r 2 80 1 0 1 0 0 2 0 0 2 0 0) = false := by decide
+example : attrWF (r 2 0 2 0 1 0 0 0 1 2 0 1 2) = true ∧ D19 (r 2 0 2 0 1 0 0 0 1 2 0 1 2) = false ∧
+    modelDiag (r 2 0 2 0 1 0 0 0 1 2 0 1 2) = some false ∧ modelLit (r 2 0 2 0 1 0 0 0 1 2 0 1 2) = true := by decide
 
 /-- non-vacuity of `¬ D19`: `1 + 2` (a literal row) and `1 + 'a'` (a reported row). -/
 example : D19 (r 0 0 2 4 1 1 253 0 1 12 0 1 12) = false ∧ agree (r 0 0 2 4 1 1 253 0 1 12 0 1 12) = true := by decide
